@@ -301,11 +301,20 @@ def check_dump_order(case):
         apply_real(g.metadata, op, step)
         if r[0] == 'either':        # (outcome not defined by the documentation: follow the object)
             lst[:] = [list(x) for x in observe(g.metadata)]
+    import re
+    if not all(re.match(r'^[a-z][a-zA-Z0-9_]*$', k) for k, _ in lst):
+        return      # (a key that is not a tag name cannot be written as ZINC at all)
     z = hszinc.dump(g)
-    head = z.split('\n')[0]
-    want = 'ver:"2.0"' + ''.join(' %s' % k if v == 'MARKER' else (' %s:N' % k if v is None else ' %s:"%s"' % (k, v)) for k, v in lst)
-    if head != want:
-        raise Violation('dump-order', case, 'ZINC header %r, model %r' % (head, want))
+    # the header is read by the independent ZINC reader: the order of the tags in the text is what counts, not its spelling
+    from .. import zinc_ref
+    try:
+        grids = zinc_ref.read_document(z)[0]
+        got = [[k, v] for k, v in grids[0][2]]
+    except Exception as e:  # noqa
+        raise Violation('dump-order', case, 'ZINC text %r is not readable: %s' % (z[:200], describe_exc(e)))
+    want = [[k, ['marker'] if v == 'MARKER' else (['null'] if v is None else ['str', v])] for k, v in lst]
+    if got != want:
+        raise Violation('dump-order', case, 'ZINC header %r carries %r, model %r' % (z.split('\n')[0], got, want))
     j = json.loads(hszinc.dump(g, mode=hszinc.MODE_JSON))
     jk = [k for k in j['meta'] if k != 'ver']
     if sorted(jk) != sorted(k for k, _ in lst):
